@@ -323,7 +323,7 @@ func c11Cancel(c *Ctx, a *clientAnchors) {
 			case *ssa.Call:
 				if isBuiltinCall(x.Common(), "close") {
 					s := sx.Of(x.Call.Args[0]).String()
-					if strings.HasPrefix(s, "makechan") {
+					if strings.HasPrefix(s, "makechan") || c11FreshFromRegister(a, s) {
 						closeDone = x
 						nClose++
 					} else {
@@ -497,7 +497,7 @@ func c11Cancel(c *Ctx, a *clientAnchors) {
 		}
 		xs, ys := rew(sx.Of(bo.X).String()), rew(sx.Of(bo.Y).String())
 		own := func(s string) bool {
-			return !isEntry(s) && (strings.HasPrefix(s, "makechan") || strings.HasPrefix(s, "alloc(") || strings.HasPrefix(s, "free("))
+			return !isEntry(s) && (strings.HasPrefix(s, "makechan") || strings.HasPrefix(s, "alloc(") || strings.HasPrefix(s, "free(") || c11FreshFromRegister(a, s))
 		}
 		if (isEntry(xs) && own(ys)) || (isEntry(ys) && own(xs)) {
 			identity = true
@@ -1488,4 +1488,36 @@ func varargValues(v ssa.Value) []ssa.Value {
 		}
 	}
 	return out
+}
+
+// c11FreshFromRegister: s is the k-th result of the registration helper, and that result is a channel made in the helper
+// on every registering return (nil on the refusing ones)
+func c11FreshFromRegister(a *clientAnchors, s string) bool {
+	if a.register == nil || !strings.HasPrefix(s, "extract[") {
+		return false
+	}
+	var k int
+	if _, err := fmt.Sscanf(s, "extract[%d](", &k); err != nil {
+		return false
+	}
+	if !strings.HasPrefix(s[strings.Index(s, "(")+1:], "call["+shortName(a.register)+"]") {
+		return false
+	}
+	made := false
+	for _, ret := range returnsOf(a.register) {
+		if k >= len(ret.Results) {
+			return false
+		}
+		switch v := retResult(ret, k).(type) {
+		case *ssa.MakeChan:
+			made = true
+		case *ssa.Const:
+			if !v.IsNil() {
+				return false
+			}
+		default:
+			return false
+		}
+	}
+	return made
 }
